@@ -100,6 +100,17 @@ def w_random(seeds):
             m = valtrace.mutate(root, rnd, t, PLANT)
             if m:
                 muts.append(m)
+        if seed % 8 == 3:
+            for x in list(walk(root)):
+                x.parent = None                        # the tree is its child lists; the stored back pointers are cleared through the public setter
+            desc["tree"] = "all parent pointers cleared"
+        elif seed % 8 == 7:
+            md = [x for x in walk(root) if x.name == "metadata" and x.children]
+            if md:                                     # a branch that sat below a metadata element, taken out with remove_child (its back pointer stays)
+                holder = rnd.choice(md)
+                root = holder.children[0]
+                holder.remove_child(root)
+                desc["tree"] = "branch detached from below a metadata element"
         if seed % 4 == 1:
             Node.store.clear()                         # a live tree none of whose nodes is registered (the registry is not the tree)
             desc["tree"] = "registry emptied after building"
